@@ -48,6 +48,15 @@ def tasks(tier, seed):
             Tq = 4 if tier == "quick" else 7
             ts.append({"kind": "queries", "label": "queries/" + lab, "cfg": cfg, "mode": "full", "T": Tq + 6, "free_after": Tq, "Tq": Tq,
                        "R": list(configs.R2), "cost": 6})
+            # long runs: a query (once or twice) after any ONE round of a 60-round run, or a reward departure (E-dev, k = 1), and the
+            # fixed plans "a query after every round / every 7th round" over 150 rounds of noisy rewards
+            Tl = 60 if tier == "quick" else 100
+            for base in ("noisy", "twopeak"):
+                ts.append({"kind": "queries", "label": "queriesdev/%s/%s" % (lab, base), "cfg": cfg, "mode": "dev", "T": Tl, "Tq": Tl, "R": list(configs.R2),
+                           "base": base, "k": 1 if tier == "quick" else 2, "cost": 12, "max_exec": 40000})
+                for m in (1, 7):
+                    ts.append({"kind": "queries", "label": "queriesplan%d/%s/%s" % (m, lab, base), "cfg": cfg, "mode": "dev", "T": 150 if not wrapper else 100,
+                               "Tq": ("every", m), "R": list(configs.R2), "base": base, "k": 0, "cost": 2})
     return ts
 
 
@@ -59,7 +68,8 @@ def _mk_for(task):
         return lambda: [ShadowOracle("C15", shadows)]
 
     def shadows_q(ctx):
-        return [Shadow("queries inserted", ctx.cfg, queries=task["Tq"])]
+        tq = task["Tq"]
+        return [Shadow("queries inserted", ctx.cfg, queries=tuple(tq) if isinstance(tq, (list, tuple)) else tq)]
 
     return lambda: [ShadowOracle("C15", shadows_q, compare_state=False)]
 
